@@ -14,6 +14,7 @@ struct BDrv<const N: usize> {
     off: usize,
     out: String,
     scn: String,
+    dig: u64,
 }
 
 #[cfg(feature = "eio-async")]
@@ -90,6 +91,7 @@ impl<const N: usize> BDrv<N> {
         ev.feat = crate::FEAT;
         ev.ty = "b";
         ev.cap = N as i64;
+        ev.digest(&mut self.dig);
         ev.write(&mut self.out);
     }
 
@@ -282,7 +284,7 @@ impl<const N: usize> BDrv<N> {
 }
 
 fn run_n<const N: usize>(scn: &str, steps: &[Value]) -> String {
-    let mut d = BDrv::<N> { buf: std::ptr::null_mut(), off: BDrv::<N>::calibrate(), out: String::new(), scn: scn.to_string() };
+    let mut d = BDrv::<N> { buf: std::ptr::null_mut(), off: BDrv::<N>::calibrate(), out: String::new(), scn: scn.to_string(), dig: 0xcbf29ce484222325 };
     let mut b = Ev::new("begin", "begin");
     b.scn = scn.to_string();
     b.cap = N as i64;
@@ -301,6 +303,7 @@ fn run_n<const N: usize>(scn: &str, steps: &[Value]) -> String {
     e.cap = N as i64;
     e.feat = crate::FEAT;
     e.write(&mut d.out);
+    crate::set_digest(d.dig);
     d.out
 }
 
